@@ -262,6 +262,7 @@ var gcKinds = []string{
 	"dgc-chain", "dgc-referrer", "dgc-tagged-referrer", "dgc-layered", "dgc-blob", "dgc-missing",
 	"gc-garbage", "gc-after-untag", "gc-clean", "reopen",
 	"push-manifest", "tag-new", "untag", "saveindex",
+	"dgc-unindexed-subject", "dgc-unindexed-subject-tagged",
 }
 
 // realizeGC: like realize, for the universe with referrers.  The simulator is only
@@ -285,6 +286,17 @@ func realizeGC(r *common.Rand, kind string, s *sim, hist *[]ck.Op) ck.Op {
 		return ck.Op{Kind: "delete", Blob: 4}
 	case "dgc-referrer":
 		push(4, 5, 6)
+		return ck.Op{Kind: "delete", Blob: 5}
+	case "dgc-unindexed-subject", "dgc-unindexed-subject-tagged":
+		// (after an earlier process died right after renaming manifest 4 into blobs/: the blob is
+		// there, index.json does not name it.)  Its referrer is pushed and deleted: the references of
+		// the referrer go, the subject - a manifest that loses its last predecessor and has no
+		// reference of its own - gains its digest reference, in one and the same Delete
+		push(5)
+		if kind == "dgc-unindexed-subject-tagged" {
+			do(ck.Op{Kind: "tag", Blob: 5, Ref: 6})
+			push(6) // a second manifest that names 5 as subject: deleting 5 cascades to it with AutoGC
+		}
 		return ck.Op{Kind: "delete", Blob: 5}
 	case "dgc-tagged-referrer":
 		push(4, 5)
@@ -1906,6 +1918,18 @@ func runGeneratedIn(r *common.Rand, sc *ck.Script, histLen int, kind string, all
 		}
 		histLen = 0
 	}
+	if strings.HasPrefix(kind, "dgc-unindexed-subject") && !sc.NoAutoSave {
+		// an earlier process died right after it had renamed manifest 4 into blobs/: the next process
+		// finds the blob but no index entry for it
+		sc.Pre = append(sc.Pre, ck.Segment{Final: ck.Op{Kind: "push", Blob: 4}, K: -1})
+		if !execSegment(sc, len(sc.Pre)-1, p) {
+			return
+		}
+		run.Count("unindexed-subject-scripts")
+		if crashes == 0 {
+			histLen = 0
+		}
+	}
 	s := p.sim.clone()
 	sc.History = genHistory(r, sc, s, histLen)
 	sc.Final = pick(kind, s, &sc.History)
@@ -2077,6 +2101,7 @@ func checkFloors() {
 	need("conc-model-compared-killed", run.Scale(15, 150))
 	need("conc-model-compared-queues", run.Scale(8, 80))
 	need("autosave-off-scripts", run.Scale(8, 60))
+	need("unindexed-subject-scripts", run.Scale(2, 12))
 	need("final:reopen", run.Scale(3, 20))
 	need("composite-finals-with-cascade", run.Scale(2, 30))
 	need("multi-write-push-kills", run.Scale(10, 100))
